@@ -22,20 +22,20 @@ theorem attrs_roundtrip (chk : Chk K) (fixed : Bool) (h : Grid K) (v : Vert K)
     (hh : h.valid = true) (hv : v.valid chk = true) :
     (CS.asdict { h, v := some v }) >>= fromAttrs chk fixed
       = .ok { h := h.discretisation, v := some v } := by
+  have hm : h.spacing ∈ spacings := by simpa [Grid.valid] using hh
   cases v with
   | sigma b =>
     simp only [Vert.valid] at hv
-    simp [CS.asdict, keys, Grid.asdict, Vert.asdict, merge, set, Vert.typeName, bind, Except.bind,
-      fromAttrs, look, gridFromAttrs, getInt, vertFromAttrs, Grid.discretisation]
-    simp only [Grid.valid] at hh
-    simp [hh]
-    split <;> simp_all
+    simp [CS.asdict, keys, Grid.asdict, Vert.asdict, merge, Attrs.set, Vert.typeName, bind, Except.bind,
+      fromAttrs, look, gridFromAttrs, getInt, vertFromAttrs, Grid.discretisation, hm]
+    split at hv <;> simp_all
   | layer n =>
-    simp only [Grid.valid] at hh
-    simp [CS.asdict, keys, Grid.asdict, Vert.asdict, merge, set, Vert.typeName, bind, Except.bind,
-      fromAttrs, look, gridFromAttrs, getInt, vertFromAttrs, Grid.discretisation, hh]
+    simp [CS.asdict, keys, Grid.asdict, Vert.asdict, merge, Attrs.set, Vert.typeName, bind, Except.bind,
+      fromAttrs, look, gridFromAttrs, getInt, vertFromAttrs, Grid.discretisation, hm]
   | pressure c =>
     simp only [Vert.valid] at hv
-    simp only [Grid.valid] at hh
-    simp [CS.asdict, keys, Grid.asdict, Vert.asdict, merge, set, Vert.typeName, bind, Except.bind,
-      fromAttrs, look, gridFromAttrs, getInt, vertFromAttrs, Grid.discretisation, hh, hv]
+    simp [CS.asdict, keys, Grid.asdict, Vert.asdict, merge, Attrs.set, Vert.typeName, bind, Except.bind,
+      fromAttrs, look, gridFromAttrs, getInt, vertFromAttrs, Grid.discretisation, hm, hv]
+
+#print axioms attrs_roundtrip
+end Dino.C19
